@@ -10,11 +10,15 @@ open Zvt
 
 /-- **Any order, for every well-formed struct.** The encoding of a canonical value is a positional prefix
 followed by the groups of its present tagged fields (one group per field; the elements of a `Vec` field form
-one group); EVERY rearrangement of those groups decodes to the same value, with nothing left over. -/
-theorem wellformed_any_order (fs : List Field) (vs : List Val) (hwf : fieldsWf fs = true) (hc : fieldsCanon fs vs) :
+one group); EVERY rearrangement of those groups decodes to the same value, with nothing left over.
+(`posPresent`: no absent positional optional — whether such a field is read back as absent depends on the bytes
+that follow it, so rearranging what follows can leave the canonical domain, DESIGN.md §5.1.) -/
+theorem wellformed_any_order (fs : List Field) (vs : List Val) (hwf : fieldsWf fs = true) (hc : fieldsCanon fs vs)
+    (hpp : posPresent fs vs) :
     ∃ (pos : Bytes) (gs : List Group), encFields fs vs = .ok (pos ++ flat gs) ∧ (gs.map (·.t)).Nodup ∧
       ∀ gs', gs.Perm gs' → decStruct fs (pos ++ flat gs') = .ok (.struct vs, []) := by
-  obtain ⟨D, hD, hDf, hDv, _⟩ := fields_rt fs vs hwf hc
+  obtain ⟨D, hD, hDf, hDv, _, hall⟩ := fields_rt fs vs hwf hc
+  have hallps := hall hpp
   obtain ⟨henc, hdec, _⟩ := decomp_rt D hD
   rw [hDf, hDv] at henc hdec
   obtain ⟨ps, g, qs⟩ := D
@@ -27,10 +31,10 @@ theorem wellformed_any_order (fs : List Field) (vs : List Val) (hwf : fieldsWf f
     subst this
     simpa [flat] using hdec
   | none =>
-    have hps := hD.ps
+    have hps : ∀ p ∈ ps, p.OK := hallps
     have hqs := hD.qs
     have hnd := hD.nd
-    simp only at hps hqs hnd
+    simp only at hqs hnd
     simp only [Decomp.bytes, Decomp.gl, List.flatMap_nil, List.nil_append] at henc hdec
     simp only [Decomp.fields, Decomp.gl, List.map_nil, List.nil_append] at hDf
     let gs := groupsFrom ps.length qs
@@ -41,7 +45,7 @@ theorem wellformed_any_order (fs : List Field) (vs : List Val) (hwf : fieldsWf f
     have hgok : ∀ g ∈ gs, GroupOK (fun t x => armFind fs t 0 x) g := by
       intro g hg
       rw [← hDf]
-      exact groupOK_of_fields ps qs hps hqs hnd g hg
+      exact groupOK_of_fields ps qs (fun p hp => (hps p hp).ok0) hqs hnd g hg
     have := C13.perm_invariant (fun x => decPos fs x) (fun t x => armFind fs t 0 x) fs (ps.flatMap (·.bytes)) (ps.map (·.v))
       (fun x => by rw [← hDf]; exact decPos_pos ps qs x hps hqs) gs gs' hp hgok hgnd (groupsFrom_idx_nodup qs ps.length)
     unfold decStruct
@@ -49,13 +53,14 @@ theorem wellformed_any_order (fs : List Field) (vs : List Val) (hwf : fieldsWf f
     exact hdec
 
 /-- … in particular for every shipped struct (the schema is regenerated from the source on every run). -/
-theorem shipped_any_order (s : StructDef) (hs : s ∈ Generated.shipped) (vs : List Val) (hc : fieldsCanon s.fields vs) :
+theorem shipped_any_order (s : StructDef) (hs : s ∈ Generated.shipped) (vs : List Val) (hc : fieldsCanon s.fields vs)
+    (hpp : posPresent s.fields vs) :
     ∃ (pos : Bytes) (gs : List Group), encFields s.fields vs = .ok (pos ++ flat gs) ∧ (gs.map (·.t)).Nodup ∧
       ∀ gs', gs.Perm gs' → decStruct s.fields (pos ++ flat gs') = .ok (.struct vs, []) := by
   have hwf : structWf s = true := by
     have : ∀ s ∈ Generated.shipped, structWf s = true := by decide +kernel
     exact this s hs
   simp only [structWf, Bool.and_eq_true] at hwf
-  exact wellformed_any_order s.fields vs hwf.1 hc
+  exact wellformed_any_order s.fields vs hwf.1 hc hpp
 
 end Zvt.C13S
